@@ -23,6 +23,21 @@ C11_STREAMS = [
     S("trans", chunks=TRANS, n={"quick": 1500, "thorough": 20000}, shards={"quick": 16, "thorough": 4}),
 ]
 
+# Pointer-width supplement (thorough tier): the quick driver bins interpreted by Miri for i686-unknown-linux-gnu
+# (32-bit usize/isize/pointers, as on wasm32; no wasm32 std can be built offline here) with release semantics,
+# compared line by line with the native x86-64 release build of the same driver and arguments.
+# n per (body): sized for ~2-4 minutes of interpretation per process (Miri runs ~10-40 events/s).
+PTR32_N = {"arith": 6, "rem": 10, "round": 40, "convi": 4, "xtype": 8, "flt": 3, "parse": 3, "fmt": 3, "codec": 1, "wrap": 5, "trans": 4}
+PTR32_ONLY = {"codec": "i8.0,u8.8,i16.8,u32.31,i64.32,u64.64,i128.0,u128.127,i128.128,i32.0,u16.0,i128.64"}
+MIRI_TARGET = "i686-unknown-linux-gnu"
+MIRI_DIR = os.path.join(ROOT, "harness", "target-miri32")
+
+
+def miri32_cmd(b, args):
+    return {"argv": ["cargo", "+nightly", "miri", "run", "--release", "--target", MIRI_TARGET, "--target-dir", MIRI_DIR, "--bin", b, "--"] + args,
+            "cwd": os.path.join(ROOT, "harness"), "env": {"MIRIFLAGS": "-Zmiri-disable-isolation", "CARGO_NET_OFFLINE": "true"}}
+
+
 RULE = ("one evaluation = one aligned pair of event lines: the same driver binary built with (debug-assertions + overflow-checks on) and "
         "(both off) is run with identical arguments (same seed => identical operand sequence) over the corpora of C01, C02, C04-C10, "
         "C12-C18 (arith, rem, round, convi, xtype, flt, parse, fmt, codec, wrap, trans drivers); every outcome token is compared; a "
@@ -50,6 +65,20 @@ def plan(prop, tier, seed):
                         mon.append(json.dumps([PY, st["gen"], "--seed", str(seed), "--n", str(st["n"][tier]),
                                                "--chunk", b.split("_", 1)[1], "--shard", "%d/%d" % (s, shards)]))
                     js.append(dict(kind="mon", body=st["body"], mon=mon, timeout=1800 if tier == "quick" else 4 * 3600))
+        if tier == "thorough":
+            for st in C11_STREAMS:
+                body = st["body"]
+                n = PTR32_N[body]
+                for b in plans.stream_bins(st, "quick"):
+                    args = ["--seed", str(seed), "--n", str(n)] + st["args"]
+                    if body in PTR32_ONLY:
+                        args += ["--only", PTR32_ONLY[body]]
+                    gen = None
+                    if st.get("gen"):
+                        gen = [PY, st["gen"], "--seed", str(seed), "--n", str(n), "--chunk", b.split("_", 1)[1], "--shard", "0/1"]
+                    mon = [PY, DIFF, json.dumps(miri32_cmd(b, args)), json.dumps([bin_path("release", b)] + args), json.dumps(gen),
+                           json.dumps({"mode": "ptr32"})]
+                    js.append(dict(kind="mon", body=body, label="ptr32", mon=mon, timeout=3 * 3600))
         return js
 
     def floor(M):
@@ -61,8 +90,24 @@ def plan(prop, tier, seed):
             return "corpora never observed: %s" % ",".join(missing)
         if not M["extra"].get("permitted_checked_only_panics"):
             return "no permitted checked-only panic was observed: the checking profile does not seem to be active"
+        if tier == "thorough" and M["extra"].get("ptr32_aligned_pairs", 0) < 5000:
+            return "pointer-width supplement observed only %s aligned pairs" % M["extra"].get("ptr32_aligned_pairs", 0)
         return None
-    return dict(module="diff11", build={"checked": set(bins), "release": set(bins)}, jobs=jobs, floor=floor, rule=RULE,
+    rule = RULE
+    build = {"checked": set(bins), "release": set(bins)}
+    pre = []
+    if tier == "thorough":
+        qb = set()
+        for st in C11_STREAMS:
+            qb.update(plans.stream_bins(st, "quick"))
+        build["release"] = set(bins) | qb
+        rule += ("; thorough adds a POINTER-WIDTH supplement: every quick driver bin is also interpreted by Miri for a 32-bit target "
+                 "(i686: usize/isize/pointers 32 bits wide, as on wasm32; release semantics) and compared token by token with the native "
+                 "x86-64 release build on identical arguments; no panic asymmetry is permitted there; usize/isize-typed events are "
+                 "pointer-width typed by design and skipped (counted in coverage.extra.ptr32_*)")
+        # one sequential warm-up so that the 32-bit Miri sysroot and the dependency crates are built once, not by 44 racing processes
+        pre = [miri32_cmd("round_qa", ["--seed", "1", "--n", "0"])]
+    return dict(module="diff11", build=build, pre=pre, jobs=jobs, floor=floor, rule=rule,
                 assumptions=plans.ASSUME + ["both builds receive identical operand sequences (checked line by line; misalignment aborts the run as inconclusive)"],
                 body=None)
 
@@ -73,6 +118,14 @@ def replay_plan(prop, hdr, lines):
     op = lines[0].split()[0]
     body = plans.ALL_OP_BODY[op]
     b = plans.replay_bin(body, lines[0])
+
+    if hdr.get("profile", "").startswith("ptr32"):
+        # a witness of the pointer-width supplement: re-run it through the 32-bit interpreter against the native build
+        def job32(bin_path, prof, inp):
+            mon = [PY, DIFF, json.dumps(miri32_cmd(b, ["--stdin"])), json.dumps([bin_path("release", b), "--stdin"]),
+                   json.dumps(["cat", inp]), json.dumps({"mode": "ptr32"})]
+            return dict(kind="mon", mon=mon, timeout=3600)
+        return dict(build={"release": {b}}, profiles=["ptr32(miri-i686)-vs-native"], job=job32)
 
     def job(bin_path, prof, inp):
         mon = [PY, DIFF, json.dumps([bin_path("checked", b), "--stdin"]), json.dumps([bin_path("release", b), "--stdin"]),
